@@ -69,6 +69,9 @@ PROPS["C09"] = {"level": "exploration",
 
 PROPS["C02"]["parts"].append(H("TestC02Backpressure", "Wbp", 60, 600, qs=2, ts=16, hang_is_violation=True))
 PROPS["C04"]["parts"].append(H("TestC04Backpressure", "Wbp", 60, 600, qs=1, ts=16, hang_is_violation=True))
+for _p in ("C01", "C02", "C07", "C09", "C10"):
+    PROPS[_p]["parts"].append(dict(H("Test%sSched" % _p, "S", 1500, 4000, qs=2, ts=16, hang_is_violation=True), sched=True))
+    PROPS[_p]["assumptions"] = PROPS[_p]["assumptions"] + ["part S: scheduling points exist only at the lock acquisitions of models/*.go and modules/*/state.go (sync import redirected to the overlay package vsync); interleavings inside a critical section are not explored; RWMutex is modelled with Go's writer preference; thorough tier enumerates all schedules with <= 2 preemptions for up to 400 generated blocks per shard"]
 PROPS["C10"]["parts"].append(dict(H("TestC10IDsExhaustive", "ids", 1, 1, qs=1, ts=1), rapid=False))
 
 META = {
